@@ -55,6 +55,7 @@ func init() {
 			{Name: "iotest-readers-both-sides", Run: extraIotestReaders},
 			{Name: "large-inputs", Run: extraLargeInputs},
 			{Name: "secret-length-sweep", Run: extraSecretLengthSweep},
+			{Name: "trans-fillcred-grid", Run: extraTransFillCredGrid},
 			{Name: "openssl-binary", Run: extraOpenSSL, Tiers: []string{"thorough"}},
 		},
 		Assumptions: []string{
